@@ -119,9 +119,10 @@ def run_spec(spec, knobs, choices=None, poll=True, drain_virtual=40.0,
                     # only that second run is judged
                     try:
                         top.run()
-                    except (SimDeadlock, SimLivelock, SimHorizon):
+                    except (SimDeadlock, SimLivelock, SimHorizon,
+                            KeyboardInterrupt, SystemExit, GeneratorExit):
                         raise
-                    except Exception:                   # pylint: disable=W0703
+                    except BaseException:               # pylint: disable=W0703
                         pass
                     ctx.log('mark', 'top', 'rerun')
                     run.seq_rerun = ctx.seq
